@@ -223,11 +223,16 @@ func vC02Table(n, cap int) (*Client, *vModel) {
 	m := &vModel{withRange: true}
 	for i := 0; i < n; i++ {
 		nm := "k" + string(rune('0'+i))
-		k := vKey{p: nd.StringN(nm+".p", 1), s: vKeyStr(nm+".s", cap)}
+		// sort keys of variable length (prefix relations) for the first `varlen` items, one byte for the others
+		icap := 1
+		if i < nd.Param("varlen", n) {
+			icap = cap
+		}
+		k := vKey{p: nd.StringN(nm+".p", 1), s: vKeyStr(nm+".s", icap)}
 		attrs := map[string]string{}
 		if !sparse || nd.Choice(nm+".indexed", 2) == 1 {
 			attrs["g"] = nd.StringN(nm+".g", 1)
-			attrs["h"] = vKeyStr(nm+".h", cap)
+			attrs["h"] = vKeyStr(nm+".h", icap)
 		}
 		if !sparse || nd.Choice(nm+".hasf", 2) == 1 {
 			attrs["f"] = nd.StringN(nm+".f", 1)
